@@ -1082,10 +1082,12 @@ def _aged_violation(live, aged):
         if a["rec"] != l["rec"]:
             k = next(i for i in range(len(a["rec"])) if a["rec"][i] != l["rec"][i])
             return f"record of the kept instance {u} differs in field #{k}: live {json.dumps(l['rec'][k], default=str)[:120]} aged {json.dumps(a['rec'][k], default=str)[:120]}"
-        if a["children"] != [c for c in l["children"] if c not in rm]:
-            return f"child_flow_uids of {u}: aged {a['children']} is not the live list {l['children']} without {rm}"
-        if a["scope_flows"] != [[c for c in sc if c not in rm] for sc in l["scope_flows"]]:
-            return f"scope flow lists of {u} are not the live ones without {rm}"
+        # both sides without the discarded uids: the clean-up drops a discarded uid from the child list of its `parent_uid` only,
+        # a flow activated by a second parent is listed by that parent too (XRel in CleanUpBisimFns.lean filters both sides)
+        if [c for c in a["children"] if c not in rm] != [c for c in l["children"] if c not in rm]:
+            return f"child_flow_uids of {u}: aged {a['children']} and live {l['children']} differ in more than the discarded {rm}"
+        if [[c for c in sc if c not in rm] for sc in a["scope_flows"]] != [[c for c in sc if c not in rm] for sc in l["scope_flows"]]:
+            return f"scope flow lists of {u} differ in more than the discarded instances {rm}"
         if a["age_us"] < l["age_us"]:
             return f"{u} is younger in the aged state"
     if list(aged["idx"].keys()) != list(live["idx"].keys()) or any(aged["idx"][k] != [x for x in live["idx"][k] if x not in rm] for k in live["idx"]):
